@@ -43,7 +43,26 @@ def workers_from_env():
         return 16
 
 
+def sweep_stale_temp_files(max_age_s=3600):
+    """Trace files handed to spawned interpreters are removed by the code
+    that wrote them; a job child killed mid-run (stop on first violation, a
+    deadline) can leave one behind.  Old ones are swept here."""
+    import glob
+    import tempfile
+    import time
+    now = time.time()
+    for pattern in ("verif-host-*.json", "verif-lazy-*.json",
+                    "verif-solo-*.json"):
+        for path in glob.glob(os.path.join(tempfile.gettempdir(), pattern)):
+            try:
+                if now - os.path.getmtime(path) > max_age_s:
+                    os.remove(path)
+            except OSError:
+                pass
+
+
 def run_check(prop, tier):
+    sweep_stale_temp_files()
     wl = load_workload(prop)
     seed = seed_from_env()
     workers = workers_from_env()
